@@ -3,6 +3,12 @@ From stdpp Require Import gmap.
 From Coq Require Import NArith Lia.
 From PV Require Import C01.FS C01.FSFacts C01.Model.
 
+(* for which (key, body ending) pairs failure safety holds: a completion flag always; the error variable
+   or no defer unless the body panics; never when the decision reads a shadowed (always nil) variable *)
+Definition safe_for (k : key) (fin : ctl) : Prop := k = KFlag \/ (k <> KAlways /\ fin <> CPanic).
+Lemma safe_for_not_always k fin : safe_for k fin -> k <> KAlways.
+Proof. intros [->|[Hna _]]; [discriminate|exact Hna]. Qed.
+
 Section ApiProofs.
 Variable pl : plan.
 Variable fresh : gmap positive file -> positive.
@@ -157,11 +163,11 @@ Definition kept_new_output (m0 : gmap positive file) (ins : list positive) (inF 
 
 Lemma api_file_safe_gen k ins inF outF chunks fin w r w' :
   (fin = COk \/ quiet pl (wcnt w)) ->
-  (k = KFlag \/ fin <> CPanic) ->
+  safe_for k fin ->
   api_file pl fresh k ins inF outF chunks fin w = (r, w') -> r <> COk ->
   wfs w' = wfs w \/ (fin = COk /\ (exists j, pl j = true) /\ kept_new_output (wfs w) ins inF outF (wfs w')).
 Proof.
-  intros Hcause Hkey. unfold api_file.
+  intros Hcause Hkey. pose proof (safe_for_not_always k fin Hkey) as Hna. unfold api_file.
   pose proof (open_all_spec ins [] w) as (Hf1 & Hc1).
   destruct (open_all pl [] ins w) as [b w1]. cbn [fst snd] in *.
   destruct b.
@@ -180,11 +186,11 @@ Proof.
   { destruct Hres as [Hfin|(Herr & j & Hj & Hpj)].
     - subst rb. destruct Hcause as [->|Hq]; [left; split; reflexivity|].
       destruct fin; [left; split; reflexivity| |].
-      + right. split; [destruct k; reflexivity|]. eapply quiet_mono; [exact Hq|lia].
-      + right. split; [destruct Hkey as [->|Hne]; [reflexivity|congruence]|]. eapply quiet_mono; [exact Hq|lia].
-    - subst rb. right. split; [destruct k; reflexivity|]. eapply amo_quiet_lt; [exact Hamo|exact Hpj|lia]. }
+      + right. split; [destruct k; first [reflexivity|exfalso; apply Hna; reflexivity]|]. eapply quiet_mono; [exact Hq|lia].
+      + right. split; [destruct Hkey as [->|[_ Hne]]; [reflexivity|congruence]|]. eapply quiet_mono; [exact Hq|lia].
+    - subst rb. right. split; [destruct k; first [reflexivity|exfalso; apply Hna; reflexivity]|]. eapply amo_quiet_lt; [exact Hamo|exact Hpj|lia]. }
   destruct Hcases as [[-> ->]|[Hcm Hq]].
-  - replace (decide k COk) with ACommit by (destruct k; reflexivity).
+  - replace (decide k COk) with ACommit by (destruct k; first [reflexivity|exfalso; apply Hna; reflexivity]).
     destruct (commit pl s w3) as [rc w4] eqn:Hcommit.
     intros [= <- <-] Hr.
     destruct (commit_spec (wfs w) s w3 rc w4 Hinv3 Hcommit Hr) as [Hback|(Hd & Hne & Hsame & Hflt)].
@@ -218,7 +224,7 @@ Proof. intros ->. split; reflexivity. Qed.
 Lemma api_staged_fault_safe_partial_proof fresh :
   (forall m, m !! fresh m = None) ->
   forall pl fin, one_cause pl fin ->
-  forall k ins inF outF chunks m0 tr, (k = KFlag \/ fin <> CPanic) ->
+  forall k ins inF outF chunks m0 tr, safe_for k fin ->
   forall r w', api_file pl fresh k ins inF outF chunks fin (W m0 0 tr) = (r, w') -> r <> COk ->
   unchanged m0 (wfs w') \/
   (fin = COk /\ pl <> nofault /\ kept_new_output m0 ins inF outF (wfs w')).
@@ -234,7 +240,7 @@ Qed.
 Lemma api_staged_fault_safe_proof fresh :
   (forall m, m !! fresh m = None) ->
   forall pl fin, one_cause pl fin ->
-  forall k ins inF outF chunks m0 tr, (k = KFlag \/ fin <> CPanic) ->
+  forall k ins inF outF chunks m0 tr, safe_for k fin ->
   (ins = [] \/ forall o, outF = Some o -> opt_eqb inF outF = false -> is_Some (m0 !! o)) ->
   forall r w', api_file pl fresh k ins inF outF chunks fin (W m0 0 tr) = (r, w') -> r <> COk ->
   unchanged m0 (wfs w').
@@ -253,8 +259,8 @@ Proof.
   unfold write, call, nofault. destruct (wfs w0 !! t); cbv beta iota zeta; [apply IH|cbn; discriminate].
 Qed.
 
-Lemma api_file_panic_not_ok fresh k ins inF outF chunks w r w' :
-  api_file nofault fresh k ins inF outF chunks CPanic w = (r, w') -> r <> COk.
+Lemma api_file_panic_not_ok fresh ins inF outF chunks w r w' :
+  api_file nofault fresh KFlag ins inF outF chunks CPanic w = (r, w') -> r <> COk.
 Proof.
   unfold api_file. destruct (open_all nofault [] ins w) as [[] w1]; [intros [= <- <-]; discriminate|].
   destruct (open_staged _ _ _ _ _ _) as [s w2|e w2]; [|intros [= <- <-]; discriminate].
@@ -262,8 +268,8 @@ Proof.
   pose proof (body_panic_not_ok (s_out s) chunks w2) as Hb.
   destruct (body nofault (s_out s) chunks CPanic w2) as [rb w3]. cbn [fst] in Hb.
   destruct rb; [congruence| |].
-  - replace (decide k CErr) with ACleanup by (destruct k; reflexivity). intros [= <- <-]. discriminate.
-  - destruct (match decide k CPanic with ACommit => _ | ACleanup => _ | ANothing => _ end) as [r' w4]. intros [= <- <-]. discriminate.
+  - cbn [decide]. intros [= <- <-]. discriminate.
+  - cbn [decide]. intros [= <- <-]. discriminate.
 Qed.
 
 (* flag_keyed_panic_safe: a skeleton whose deferred decision reads a completion flag that is set
@@ -275,7 +281,7 @@ Lemma flag_keyed_panic_safe_proof fresh :
   r <> COk /\ unchanged m0 (wfs w').
 Proof.
   intros Hfresh ins inF outF chunks m0 tr r w' Hrun.
-  pose proof (api_file_panic_not_ok fresh KFlag ins inF outF chunks _ r w' Hrun) as Hr.
+  pose proof (api_file_panic_not_ok fresh ins inF outF chunks _ r w' Hrun) as Hr.
   split; [exact Hr|].
   destruct (api_staged_fault_safe_partial_proof fresh Hfresh nofault CPanic (or_introl eq_refl)
               KFlag ins inF outF chunks m0 tr (or_introl eq_refl) r w' Hrun Hr) as [Hu|(Hfin & _)];
